@@ -133,13 +133,6 @@ UNITS += [
 """),
 ]
 
-KANI = []
-META = {"not_covered": [
-    "restore_contents (threads), set_metadata, the closure process_node of collect_and_prepare, sparse files, LocalDestination (syscalls): file-system state",
-    "walkdir order (ascending by path, component-wise) and NodeStreamer order are ASSUMED sorted in the merge unit",
-    "LocalDestination::path joining the streamed relative path onto the destination (std Path::join of a confined relative path)",
-    "is_plain_name itself (assumed to decide 'one normal component' per std::path::Path::components)",
-]}
 UNITS += [
     Unit(name="merge_walk", file=RS, kind="block", within="pub(crate) fn collect_and_prepare<S: IndexedFull>(",
          anchor="    loop {\n        match (&next_dst, &next_node) {", block_end="@matching_brace",
